@@ -249,7 +249,25 @@ def prototype_validation(ctx, prog, rule):
     r = prog.fn("e57_writer::E57Writer::<T>::register_extension")
     S4 = Steps(ctx, r, rule)
     S4.step("name-validation", calls_where(r, lambda c, t, R: c == "extension::Extension::validate_name"))
-    S4.step("duplicate-test", calls_where(r, lambda c, t, R: c.endswith("::any")))
+    dup = calls_where(r, lambda c, t, R: c.endswith("::any"))
+    if not dup:
+        # the same test as an explicit loop: `for e in &self.extensions { if e.namespace == extension.namespace { return Err } }`
+        import elems
+        Rr = Resolver(r)
+        for bi, t in r.calls(lambda c, t: c.rsplit("::", 1)[-1] in ("eq", "ne") and len(t["args"]) == 2):
+            sides = [strip(Rr.operand(a)) for a in t["args"][:2]]
+            es = [elems.elem_of(x) for x in sides]
+            is_elem = [e is not None and self_field(strip(e[0])) == "extensions" and e[1] == ["namespace"] for e in es]
+            is_new = [x[0] == "field" and x[2] == "namespace" and strip(x[1]) == ("param", 2) for x in sides]
+            if (is_elem[0] and is_new[1]) or (is_elem[1] and is_new[0]):
+                for sw, tr, fa in bool_switches(r, bi):
+                    equal = tr if callee_of(t).endswith("eq") else fa
+                    pushes_ = [b for b, tt in r.calls(lambda c, t: c.endswith("Vec::<T, A>::push"))]
+                    if r.ok_reachable(start=[equal]) is None and not any(p_ in reach(r.cfg(), [equal]) for p_ in pushes_):
+                        e0 = es[0] if is_elem[0] else es[1]
+                        if e0[2][0] == "next" and e0[2][1] is not None:
+                            dup.append(e0[2][1])        # the loop's next(): every path to the push runs the loop
+    S4.step("duplicate-test", dup)
     S4.step("push", calls_where(r, lambda c, t, R: c.endswith("Vec::<T, A>::push")))
     S4.before("name-validation", "push")
     S4.before("duplicate-test", "push")
